@@ -17,7 +17,12 @@ var (
 	errInvalidReturn = errors.New("invalid function return signature")
 )
 
-var notImplemented = Function{Func: unimplemented}
+// unimplementedWithArity returns the placeholder for a function of the specification that is not
+// implemented yet, accepting the argument counts the specification gives it, so that a call fails with
+// the explicit not-implemented error rather than with an arity complaint.
+func unimplementedWithArity(minArity, maxArity int) Function {
+	return Function{Func: unimplemented, MinArity: minArity, MaxArity: maxArity}
+}
 
 // FHIRPathFunc is the common abstraction for all function types
 // supported by FHIRPath.
